@@ -68,14 +68,27 @@ impl CaoLangAllocator {
     /// the allocator at a time
     pub unsafe fn alloc(&self, l: Layout) -> Result<NonNull<u8>, AllocError> {
         let s = l.size() + l.align();
+        #[cfg(feature = "verif-hooks")]
+        crate::verif_hooks::event(crate::verif_hooks::AllocEvent::AllocBegin {
+            size: l.size(),
+            align: l.align(),
+        });
+        #[cfg(feature = "verif-hooks")]
+        let forced = crate::verif_hooks::should_force_gc();
+        #[cfg(not(feature = "verif-hooks"))]
+        let forced = false;
         let mut allocated = s + self.allocated.fetch_add(s, Ordering::Relaxed);
         let limit = self.limit.load(Ordering::Relaxed);
-        if allocated > limit || allocated > self.next_gc.load(Ordering::Relaxed) {
+        if forced || allocated > limit || allocated > self.next_gc.load(Ordering::Relaxed) {
             // collect when the threshold is crossed, and before giving up on the request
             if !self.runtime.is_null() {
+                #[cfg(feature = "verif-hooks")]
+                crate::verif_hooks::event(crate::verif_hooks::AllocEvent::GcBegin);
                 unsafe {
                     (*self.runtime).gc();
                 }
+                #[cfg(feature = "verif-hooks")]
+                crate::verif_hooks::event(crate::verif_hooks::AllocEvent::GcEnd);
             }
             let before = allocated;
             allocated = self.allocated.load(Ordering::Relaxed);
@@ -88,9 +101,21 @@ impl CaoLangAllocator {
             if allocated > limit {
                 // the request is refused, it must not stay charged
                 self.allocated.fetch_sub(s, Ordering::Relaxed);
+                #[cfg(feature = "verif-hooks")]
+                crate::verif_hooks::event(crate::verif_hooks::AllocEvent::AllocEnd {
+                    ok: false,
+                    allocated: self.allocated.load(Ordering::Relaxed),
+                    next_gc: self.next_gc.load(Ordering::Relaxed),
+                });
                 return Err(AllocError::OutOfMemory);
             }
         }
+        #[cfg(feature = "verif-hooks")]
+        crate::verif_hooks::event(crate::verif_hooks::AllocEvent::AllocEnd {
+            ok: true,
+            allocated: self.allocated.load(Ordering::Relaxed),
+            next_gc: self.next_gc.load(Ordering::Relaxed),
+        });
         let ptr = alloc(l);
         Ok(NonNull::new(ptr).unwrap())
     }
@@ -112,6 +137,12 @@ impl CaoLangAllocator {
     pub unsafe fn dealloc(&self, p: NonNull<u8>, l: Layout) {
         let s = l.size() + l.align();
         self.allocated.fetch_sub(s, Ordering::Relaxed);
+        #[cfg(feature = "verif-hooks")]
+        crate::verif_hooks::event(crate::verif_hooks::AllocEvent::Dealloc {
+            size: l.size(),
+            align: l.align(),
+            allocated: self.allocated.load(Ordering::Relaxed),
+        });
         dealloc(p.as_ptr(), l);
     }
 }
